@@ -143,7 +143,7 @@ def run(tier, chk):
         # every variant of at most three bytes (all ModRM register forms of the one- and two-byte opcodes), a sample of the longer ones
         short = [h for h in dev1 if len(h) <= 6]
         rest = [h for h in dev1 if len(h) > 6]
-        dev1 = short + rnd.sample(rest, min(len(rest), 30000))
+        dev1 = short + ia32space.stratified(rest, rnd, 30000)
     seenb = set(bytes(b).hex() for b in allb)
     for h in base + dev1:
         hh = h + bytes(JUNK).hex()
